@@ -68,7 +68,7 @@ struct Value {
     static std::vector<Value> parse_args(const char* args_string, size_t args_len = 0) {
         if (args_len == 0) args_len = strlen(args_string);
         std::vector<const char*> args;
-        char* args_ptr[args_len];
+        std::vector<char*> args_ptr(args_len + 1); // (was a variable length array on the stack: 8 bytes per input character, per nesting level)
         size_t arg_idx = 0;
         size_t start = 0;
         for (size_t i = 0; i <= args_len; i++) {
@@ -154,11 +154,18 @@ struct Value {
         str = v;
         type = T_STRING;
         if (vlen > 1 && v[0] == '[' && v[vlen - 1] == ']') {
+            static int bracket_depth = 0;
+            if (bracket_depth >= 200) {
+                fprintf(stderr, "parse error, brackets nested too deeply (more than 200 levels)\n");
+                exit(1);
+            }
+            ++bracket_depth;
             CScript s;
             // decompile from Bitcoin Script
             for (auto& it : parse_args(&v[1], vlen - 2)) {
                 it >> s;
             }
+            --bracket_depth;
             insert(data, s);
             type = T_DATA;
             return;
